@@ -105,8 +105,9 @@ func memArray(m Mem) (*Term, bool) {
 
 type QHyp struct {
 	text string
-	inst func(ks []*Term) *Term // instantiate the hypothesis at the given terms (one per binder)
-	n    int                    // number of binders
+	inst  func(ks []*Term) *Term // instantiate the hypothesis at the given terms (one per binder)
+	n     int                    // number of binders
+	sorts []*Sort                // sort of each binder
 }
 
 type CallRec struct {
@@ -205,11 +206,17 @@ func (s *State) hyps1(n2 int) []*Term {
 		switch q.n {
 		case 1:
 			for _, t := range s.inst {
+				if len(q.sorts) > 0 && t.Sort != q.sorts[0] {
+					continue
+				}
 				out = append(out, q.inst([]*Term{t}))
 			}
 		case 2:
 			for _, t1 := range s.inst[:n2] {
 				for _, t2 := range s.inst[:n2] {
+					if len(q.sorts) > 1 && (t1.Sort != q.sorts[0] || t2.Sort != q.sorts[1]) {
+						continue
+					}
 					out = append(out, q.inst([]*Term{t1, t2}))
 				}
 			}
